@@ -434,8 +434,16 @@ fn replay_known(cx: &mut Ctx) {
     // every listed finding: replay its witness in a worker
     let known = cx.known.clone();
     let mut hang_probe_cases: Vec<Case> = vec![];
+    // (the entry's `witness` and every text of `other_witnesses`)
+    let mut entries: Vec<(Known, String, bool)> = vec![];
     for k in &known {
-        let c = Case { kind: k.witness_kind, text: k.witness.clone(), group: "witness", apis: if k.apis.iter().any(|a| a == "*") { vec!["*".into()] } else { k.apis.clone() } };
+        entries.push((k.clone(), k.witness.clone(), true));
+        for w in &k.other_witnesses {
+            entries.push((k.clone(), w.clone(), false));
+        }
+    }
+    for (k, wtext, main_witness) in &entries {
+        let c = Case { kind: k.witness_kind, text: wtext.clone(), group: "witness", apis: if k.apis.iter().any(|a| a == "*") { vec!["*".into()] } else { k.apis.clone() } };
         let outs = cx.pool.run(std::slice::from_ref(&c));
         let mut hit = false;
         let mut other: Vec<String> = vec![];
@@ -465,7 +473,7 @@ fn replay_known(cx: &mut Ctx) {
             if hit {
                 // counted later together with the exploration hits
                 cx.known_hits.entry(k.id.clone()).or_insert((0, c.text.clone())).0 += 1;
-            } else {
+            } else if *main_witness {
                 cx.rep.note(format!("listed finding {} (status known): its witness no longer panics at the listed site (other panics: {:?}) — the entry is stale", k.id, other));
             }
         } else if hit {
